@@ -9,6 +9,7 @@ EXTENDS Json, IOUtils, TLC, Sequences, Integers, FiniteSets, SequencesExt
 
 Rec  == ndJsonDeserialize(IOEnv.TRACE)
 RevT == ndJsonDeserialize(IOEnv.REVS)
+RevIx == [t \in {RevT[i].rev : i \in DOMAIN RevT} |-> CHOOSE i \in DOMAIN RevT : RevT[i].rev = t]
 INSTANCE RevOrder
 NoRev == ""
 Core == INSTANCE MeldaCore WITH RevLess <- TRevLess, Idx <- TIdx, IsRes <- TIsRes,
